@@ -285,11 +285,30 @@ def check_transfer_functions(F, rep, S, rule="ALG-REF"):
             rep.ob("CONST-KNEE", "knee-step:%s:decode" % key, abs(lo - hi) < 1e-6, "|linear arm - power arm| at %g = %.3g" % (enc_t, abs(lo - hi)))
             rep.ob("CONST-KNEE", "knee-image:%s" % key, abs(float_eval(enc, lin_t, True) - enc_t) < 1e-6,
                    "encode(linear threshold) = %.9g vs encoded threshold %.9g" % (float_eval(enc, lin_t, True), enc_t))
+    # GammaFn<N> (deprecated, documented as not following any standard): no published curve to compare with, but the pair must still be
+    # mutually inverse -- every Gamma<..> colour converts through into_linear / from_linear like any other RGB standard
+    for path in sorted(set(into) | set(frm)):
+        if not path.endswith("gamma::GammaFn"):
+            continue
+        try:
+            bi, bf = F.impl_method(into[path], "into_linear"), F.impl_method(frm[path], "from_linear")
+            x = S.ctx.sym("x")
+            S.ctx.positive.add("x")
+            dec, _ = S.ev.eval_body(bi, [x])
+            enc_dec, _ = S.ev.eval_body(bf, [dec])
+            enc, _ = S.ev.eval_body(bf, [x])
+            dec_enc, _ = S.ev.eval_body(bi, [enc])
+            from .common import check_value
+            check_value(rep, "ALG-LAW", "transfer:GammaFn:from_linear∘into_linear", S, bf, enc_dec, x, sample="(x^a)^b with a·b = 1")
+            check_value(rep, "ALG-LAW", "transfer:GammaFn:into_linear∘from_linear", S, bi, dec_enc, x, sample="(x^b)^a with a·b = 1")
+            n += 1
+        except (KeyError, Opaque, poly.TooBig) as ex:
+            rep.fail("ALG-LAW", "transfer:GammaFn", "uninterpretable: %s" % ex)
     # every other generic transfer function impl must be known (fail closed on additions)
     for path in set(into) | set(frm):
         if path not in refs and not path.endswith("gamma::GammaFn"):
             rep.fail("ANCHOR", "transfer:" + path, "transfer function without a reference in rules/consts.py")
-    rep.floor("transfer functions", n, 12)
+    rep.floor("transfer functions", n, 13)
 
 
 class _FloatR:
